@@ -10,7 +10,7 @@ import (
 )
 
 func init() {
-	register(&Rule{Name: "PURE", Floor: 14, Run: rulePure, Fixture: "fixture.mutateCaller",
+	register(&Rule{Name: "PURE", Floor: 7, Run: rulePure, Fixture: "fixture.mutateCaller",
 		Doc: "validation, merging, hashing and every extension config's Builder/Oid leave the memory of the configuration they are given untouched: no store, map update, append, copy or mutating call through a slice/map/pointer that came in with an argument"})
 	register(&Rule{Name: "LINT-REUSE", Floor: 0, Run: ruleLintReuse, Fixture: "fixture.reuseSlice",
 		Doc: "a slice that has been handed on (stored into a struct, slice element or interface) is not truncated with s[:0] and appended to again, and a bytes.Buffer's Bytes() are not kept while the buffer is reset or written again: later writes would overwrite what was handed on"})
@@ -714,7 +714,7 @@ func aggregateEscapes(al *ssa.Alloc) bool {
 }
 
 func init() {
-	register(&Rule{Name: "STATELESS", Floor: 4, Run: ruleStateless, Fixture: "fixture.keepsTable",
+	register(&Rule{Name: "STATELESS", Floor: 2, Run: ruleStateless, Fixture: "fixture.keepsTable",
 		Doc: "validation, merging, hashing, subject parsing and the regeneration decision are functions of their arguments (and of the database they are handed): no function they can reach in the module writes a package-level variable, or reads one that anything outside package initialisation writes (the logging package's verbosity excepted) — a result must not depend on which certificates were processed before"})
 }
 
